@@ -414,3 +414,159 @@ def w11(facts, tier):
         yield ob(["C01", "C02"], "W11", key, "violation" if bad else "pass", where(f),
                  f"{key}: value-altering construct(s) {sorted(set(bad))}: a primitive no longer round-trips / is no longer encoded as documented" if bad
                  else "value passes unmodified between memory and the byte sink")
+
+
+# ---------------------------------------------------------------------------------------------
+# W13: value flow of hand-written composite impls: the k-th value written comes from the component that the k-th value
+# read is put back into (a swap of two same-typed components is invisible to the language check)
+
+CTOR_PARAMS = {
+    "core::net::socket_addr::SocketAddrV4::new": ["ip", "port"],
+    "core::net::socket_addr::SocketAddrV6::new": ["ip", "port", "flowinfo", "scope_id"],
+    "nalgebra::geometry::point::OPoint::new": ["x", "y", "z"],
+    "nalgebra::base::matrix::Matrix::new": ["x", "y", "z"],
+    "nalgebra::geometry::quaternion::Quaternion::new": ["w", "x", "y", "z"],
+}
+WRITE_CALLS = ("savefile::Serialize::serialize",)
+READ_CALLS = ("savefile::Deserialize::deserialize",)
+
+
+def is_write(x):
+    c = callee(x) or ""
+    return c in WRITE_CALLS or (c.startswith("savefile::Serializer::write_") and len(x.get("args", [])) == 2)
+
+
+def is_read(x):
+    c = callee(x) or ""
+    return c in READ_CALLS or (c.startswith("savefile::Deserializer::read_") and len(x.get("args", [])) == 1)
+
+
+def source_name(n):
+    """distinguishing accessor chain of a written value: fields and nullary methods applied to the base variable"""
+    chain = []
+    n = peel(n)
+    while isinstance(n, dict):
+        k = n.get("k")
+        if k in ("Ref", "Deref", "Coerce", "Cast"):
+            n = n["e"]
+        elif k == "Field":
+            chain.append(n["f"])
+            n = n["e"]
+        elif k == "Call" and len(n.get("args", [])) == 1:
+            name = (callee(n) or "").rsplit("::", 1)[-1]
+            if name not in ("deref", "to_bits", "as_ref", "clone", "into", "borrow", "load", "get"):
+                chain.append(name + "()")
+            n = n["args"][0]
+        elif k == "Var":
+            break
+        else:
+            return None
+    chain.reverse()
+    return chain
+
+
+def linear_paths(body):
+    """straight-line statement sequences: the function body and every match arm / if branch body"""
+    out = [body]
+    for x in walk(body):
+        if x.get("k") == "Match":
+            for a in x["arms"]:
+                out.append(a["body"])
+    return out
+
+
+def ordered_calls(n, pred):
+    return [x for x in walk(n) if x.get("k") == "Call" and pred(x)]
+
+
+@rule("W13", ["C01", "C02"], floor=4, doc="hand-written composite impls: the k-th value the writer emits is taken from the component into which the "
+      "reader puts the k-th value it reads (constructor parameter / struct field / tuple position)")
+def w13(facts, tier):
+    from .wire_rules import impl_pairs
+    sers, des = impl_pairs(facts)
+    des_by_ty = {ty: v for (ty, fid), v in des.items()}
+    for (ty, fid), (wf, wts) in sorted(sers.items()):
+        if "~" in fid or ty not in des_by_ty:
+            continue
+        rf, _ = des_by_ty[ty]
+        # reader: destinations per linear path
+        results = []
+        for rpath in linear_paths(rf["body"]):
+            reads = ordered_calls(rpath, is_read)
+            if len(reads) < 2:
+                continue
+            order = {id(x): i for i, x in enumerate(reads)}
+            var_of_read = {}
+            for s in walk(rpath):
+                if s.get("k") == "LetS" and s["pat"].get("k") == "Bind" and s.get("init") is not None:
+                    rs = [y for y in walk(s["init"]) if id(y) in order]
+                    if len(rs) == 1:
+                        var_of_read[s["pat"]["v"]] = order[id(rs[0])]
+
+            def ordinal(e):
+                hits = set()
+                for y in walk(e):
+                    if id(y) in order:
+                        hits.add(order[id(y)])
+                    if y.get("k") == "Var" and y["v"] in var_of_read:
+                        hits.add(var_of_read[y["v"]])
+                return next(iter(hits)) if len(hits) == 1 else None
+            dest = {}
+            for y in walk(rpath):
+                k = y.get("k")
+                if k == "Call" and callee(y) in CTOR_PARAMS:
+                    names = CTOR_PARAMS[callee(y)]
+                    for nm, a in zip(names, y["args"]):
+                        o = ordinal(a)
+                        if o is not None:
+                            dest.setdefault(o, []).append(nm)
+                elif k == "Adt" and y.get("adt") == self_adt(rf) and len(y["fields"]) >= 2:
+                    for fl in y["fields"]:
+                        o = ordinal(fl["e"])
+                        if o is not None and id(peel(fl["e"])) != id(y):
+                            dest.setdefault(o, []).append(fl["f"])
+                elif k == "Tuple" and len(y["es"]) >= 2 and ty.startswith("("):
+                    for i, e in enumerate(y["es"]):
+                        o = ordinal(e)
+                        if o is not None:
+                            dest.setdefault(o, []).append(str(i))
+            if len(dest) >= 2:
+                results.append((rpath, reads, dest))
+        if not results:
+            continue
+        # writer: sources per linear path with the same number of writes
+        bad = []
+        matched = 0
+        for rpath, reads, dest in results:
+            for wpath in linear_paths(wf["body"]):
+                writes = ordered_calls(wpath, is_write)
+                # a literal tag written inside the arm has its read outside the reader's arm: not a component
+                writes = [w for w in writes if peel(w["args"][0] if callee(w) in WRITE_CALLS else w["args"][1]).get("k") != "Lit"]
+                if len(writes) != len(reads):
+                    continue
+                # tag literals must agree when both start with a literal (variant arms)
+                srcs = []
+                for w in writes:
+                    arg = w["args"][0] if callee(w) in WRITE_CALLS else w["args"][1]
+                    srcs.append(source_name(arg))
+                ok_path = True
+                mism = []
+                for o, names in dest.items():
+                    s = srcs[o] if o < len(srcs) else None
+                    if not s:
+                        ok_path = False
+                        break
+                    want = names[-1]
+                    got = [p.rstrip("()") for p in s]
+                    if want not in got and not (want in ("i", "j", "k") and {"i": "x", "j": "y", "k": "z"}[want] in got):
+                        mism.append(f"value #{o + 1} is written from `{'.'.join(s)}` but read back into `{want}`")
+                if ok_path:
+                    matched += 1
+                    bad += mism
+                break
+        key = ty
+        if matched == 0:
+            yield ob(["C01"], "W13", key, "undecided", where(wf), "writer/reader paths could not be aligned")
+        else:
+            yield ob(["C01", "C02"], "W13", key, "violation" if bad else "pass", where(wf),
+                     f"{ty}: " + ("; ".join(sorted(set(bad))[:3]) if bad else f"components flow back into their places on {matched} path(s)"))
